@@ -98,6 +98,9 @@ class World:
             doc["ar"][0] = hex(v ^ 1)
             self.proof = json.dumps(doc) + "\n"
             return True, "empty", ""
+        if cmd == "blank":
+            self.proof = "" if s["how"] == "empty" else " \n\t\n"
+            return True, "empty", ""
         if cmd == "verify":
             h = {"own": self.hash or "0x1", "other": hex((int(self.hash or "0x1", 16) + 1)), "junk": "zz"}[s["hash"]]
             rc, out, err = self.run(["verify"] + self.mode_args(s["mode"]) + ["--keys-file", self.path(s["key"]), "--input-hash", h], stdin=self.proof or "")
@@ -309,7 +312,10 @@ def run(ctx):
                       K(cmd="convert-to-raw", key="k1", to="k2", exit0="yes", stdout="empty"), K(cmd="verify", key="k2", mode=m, hash="own", exit0="yes", stdout="empty"),
                       K(cmd="tamper", exit0="yes", stdout="empty"), K(cmd="verify", key="k1", mode=m, hash="own", exit0="no", stdout="empty"),
                       K(cmd="prove", key="k1", mode="", exit0="no", stdout="empty"),
+                      K(cmd="verify", key="k1", mode=m, hash="own", exit0="no", stdout="empty"),      # `prove | verify` with a failed prove: verify's stdin is empty
                       K(cmd="gen-test-params", mode=m, dim=dim, valid=False, exit0="yes", stdout="params"), K(cmd="prove", key="k1", mode=m, exit0="no", stdout="empty"),
+                      K(cmd="verify", key="k1", mode=m, hash="own", exit0="no", stdout="empty"),
+                      K(cmd="blank", how="whitespace", exit0="yes", stdout="empty"), K(cmd="verify", key="k1", mode=m, hash="own", exit0="no", stdout="empty"),
                       K(cmd="damage", key="k2", how="truncated", exit0="yes", stdout="empty"), K(cmd="gen-test-params", mode=m, dim=dim, valid=True, exit0="yes", stdout="params"),
                       K(cmd="prove", key="k2", mode=m, exit0="no", stdout="empty"), K(cmd="convert-to-raw", key="k2", to="k1", exit0="no", stdout="empty"),
                       K(cmd="prove", key="k1", mode=m, exit0="yes", stdout="proof"), K(cmd="damage", key="k1", how="garbage", exit0="yes", stdout="empty"),
